@@ -618,6 +618,33 @@ impl Describe for OptEnum {
 }
 
 #[derive(Serialize, Deserialize, Debug, PartialEq, Clone)]
+pub enum OptPayloads {
+    Segment(Option<(i32, i32)>),
+    Label(Option<String>),
+    Point { x: Option<i8>, y: i8 },
+}
+
+impl Describe for OptPayloads {
+    fn ty() -> Value {
+        en("OptPayloads", vec![vn("Segment", d::<Option<(i32, i32)>>()), vn("Label", d::<Option<String>>()), vs("Point", vec![f("x", d::<Option<i8>>()), f("y", d::<i8>())])])
+    }
+}
+
+/// an `Option<enum>` whose variants wrap an `Option`: `Some(Segment(None))` must not read back as `None` (seeded change c04f)
+#[derive(Serialize, Deserialize, Debug, PartialEq, Clone)]
+pub struct OptEnumOptPayload {
+    pub shape: Option<OptPayloads>,
+    pub k: i32,
+    pub shapes: Vec<Option<OptPayloads>>,
+}
+
+impl Describe for OptEnumOptPayload {
+    fn ty() -> Value {
+        st("OptEnumOptPayload", vec![f("shape", d::<Option<OptPayloads>>()), f("k", d::<i32>()), f("shapes", d::<Vec<Option<OptPayloads>>>())])
+    }
+}
+
+#[derive(Serialize, Deserialize, Debug, PartialEq, Clone)]
 pub struct ResultField {
     pub r: Result<i32, String>,
     pub rs: Vec<Result<Inner, u8>>,
@@ -1270,7 +1297,7 @@ macro_rules! plain {
 plain!(
     Scalars, Sizes, Nested, TupleStruct, Wrap<Newtype>, NewtypeOfStruct, Wrap<UnitS>, WithUnit, Empty, HasEmpty, Wide, Boxed,
     Wrap<AllKinds>, Wrap<DataOnly>, HasColor, HasUnitPayload, OptColor, EnumVec, EnumInStructInVec, Wrap<EnumNested>, Wrap<Payloads>,
-    Wrap<ManyVariants>, OptEnum, ResultField, EnumWithUnitInVec, Opts, OptStruct, OptVec, VecOpt, VecVec, VecStruct,
+    Wrap<ManyVariants>, OptEnum, OptEnumOptPayload, ResultField, EnumWithUnitInVec, Opts, OptStruct, OptVec, VecOpt, VecVec, VecStruct,
     SeqCollections, HashSetField, Deep, Arrays, Tuples, RootTuple, TupleInVec, HMap, BMapStruct, BMapIntKey, BMapVecValues,
     MapInVec, MapEnumValues, MapEnumKeys, MapOfMaps, Strs, Bytes, BytesNested, Chars, Renamed, Camel, Scream, Wrap<RenamedVariants>,
     HasRenamedColor, Defaults, ContainerDefault, Skips, Wrap<SkipsInVariant>, Wrap<Meters>, TransparentStruct, HasTransparent,
@@ -1325,6 +1352,7 @@ macro_rules! zoo_types {
             (Wrap<Payloads>, "Wrap<Payloads>", "enum-payloads", []),
             (Wrap<ManyVariants>, "Wrap<ManyVariants>", "enum-wide", []),
             (OptEnum, "OptEnum", "option-enum", []),
+            (OptEnumOptPayload, "OptEnumOptPayload", "option-enum-option-payload", []),
             (ResultField, "ResultField", "enum-in-vec", []),
             (EnumWithUnitInVec, "EnumWithUnitInVec", "enum-in-vec", ["nulls"]),
             (Opts, "Opts", "option-scalar", []),
